@@ -486,6 +486,12 @@ def _enum_worker(job):
         cnt['trees'] += 1; cnt['runs'] += n; cnt['trees:' + theme] += 1
         if cfg is not None:
             cfg, kind = reproduce(e, args_list, cfg, kind, cnt)
+        if cfg is not None and cfg.simplify and kind in ('hang', 'exception'):
+            from . import exprcheck as X
+            ks, _ = X.guarded(lambda: e.simplified, 8)
+            if ks != 'ok':                 # simplification itself does not return / raises: the subject of C01
+                cnt['simplification-does-not-return(C01)'] += 1
+                cfg = None
         if e._loops:
             cnt['trees:with-loop'] += 1
             if cfg is None and rng.random() < .5:
